@@ -504,13 +504,13 @@ func substringFunc(arg1, arg2, arg3 query) func(query, iterator) interface{} {
 		// round(start) <= p < round(start) + round(length), where round() is
 		// the XPath function (halves are rounded towards positive infinity).
 		// fix https://github.com/antchfx/xpath/issues/109
-		first := math.Floor(start + 0.5)
+		first := roundHalfUp(start)
 		last := math.Inf(1)
 		if arg3 != nil {
 			if length, ok = functionArgs(arg3).Evaluate(t).(float64); !ok {
 				panic(errors.New("substring() function second argument type must be number"))
 			}
-			last = first + math.Floor(length+0.5)
+			last = first + roundHalfUp(length)
 		}
 		if math.IsNaN(first) || math.IsNaN(last) || first > float64(len(m)) {
 			return ""
@@ -527,6 +527,17 @@ func substringFunc(arg1, arg2, arg3 query) func(query, iterator) interface{} {
 		}
 		return m[lo-1 : hi-1]
 	}
+}
+
+// roundHalfUp is the XPath round() on float64: the closest integer, a tie goes
+// towards positive infinity. math.Floor(x + 0.5) is not the same: the sum is
+// rounded first, so 0.49999999999999994 would give 1.
+func roundHalfUp(x float64) float64 {
+	r := math.Floor(x)
+	if x-r >= 0.5 { // the fraction x - floor(x) is exact
+		r++
+	}
+	return r
 }
 
 // substringIndFunc is XPath functions substring-before/substring-after function returns a part of a given string.
